@@ -382,7 +382,9 @@ def run_e3(prop, tier, parts, assumptions=None, time_budget=None):
     vio = []
     for name, label, factory in parts:
         print(f"[{prop}] part {label}")
-        r = smallscope.run_cases(name, factory(), deadline=deadline)
+        # file-writing cases cost 0.1-0.5 s each: hand them out in small chunks
+        chunk = 6 if name in ("c12g", "c15") else 200
+        r = smallscope.run_cases(name, factory(), chunk=chunk, deadline=deadline)
         for v in r["violations"]:
             v["check_fn"] = name
         vio.extend(v for v in r["violations"] if v["property"] in (prop, "C00"))
@@ -544,7 +546,7 @@ def check_c16(tier):
         dict(name="seg", worlds=["seg-2d", "seg-2d-aniso", "seg-3d"], seeds=HAND_SEEDS if not q else ["div", "skip", "two"], depth=0 if q else 1, kinds=SEG_KINDS),
     ]
     if q:
-        stages.append(dict(name="seg edited", worlds=["seg-2d"], seeds=["desc"], depth=1, kinds=("del_node", "paint", "add_edge"), max_states=60))
+        stages.append(dict(name="seg edited", worlds=["seg-2d"], seeds=["desc"], depth=1, kinds=("del_node", "paint", "add_edge")))
     return run_stateset("C16", tier, stages, "readonly_state", time_budget=budget(tier, 200, 3000))
 
 
